@@ -587,6 +587,7 @@ class RaceControlStub:
             # BenchmarkCoordinator.on_task_finished / on_benchmark_complete: metrics_store.bulk_add(new_metrics)
             before = len(self.sim.rc_store.docs)
             self.sim.rc_store.bulk_add(msg.metrics)
+            self.sim.rc_docs.extend(self.sim.rc_store.docs[before:])
             self.sim.note("rc-added", sids=self.sim.sids_of_docs(self.sim.rc_store.docs[before:]))
 
 
@@ -690,6 +691,7 @@ class Sim:
         self.client_task = {}       # client id -> name of the task its executor currently runs
         self.client_task_runs = {}  # (client id, task name) -> how often that client has started the task so far
         self.progress_log = []
+        self.rc_docs = []           # every metrics document race control's store has received (stub or real coordinator)
         self.api_keys_created, self.api_keys_deleted = [], []
         self.outage_from = scenario.get("outage_from")  # virtual time from which the cluster is unreachable (persistent)
         self.registration_listeners = set()
@@ -757,7 +759,14 @@ class Sim:
                 if sim.fault_plan.get(("rc-store", n[0])):
                     sim.fault_time = sim.clock if sim.fault_time is None else sim.fault_time
                     raise injected("race control metrics store failed (injected)")
-                return orig_bulk_add(memento)
+                store = coord.metrics_store
+                before = len(store.docs) if hasattr(store, "docs") else 0
+                r = orig_bulk_add(memento)
+                if hasattr(store, "docs"):
+                    # what the real BenchmarkCoordinator's store received with this TaskFinished / BenchmarkComplete (C07)
+                    sim.rc_docs.extend(store.docs[before:])
+                    sim.note("rc-added", sids=sim.sids_of_docs(store.docs[before:]))
+                return r
 
             coord.metrics_store.bulk_add = bulk_add
             orig_store_race = coord.race_store.store_race
